@@ -726,7 +726,7 @@ func nativeReplay(repo, scratch string, ov map[string][]byte, v *Violation) (boo
 	case "panic":
 		return strings.Contains(s, "VH-PANIC"), s
 	case "unwind", "steplimit", "deadlock":
-		return strings.Contains(s, "VH-HANG") || strings.Contains(s, "test timed out") || strings.Contains(s, "VH-PANIC"), s
+		return strings.Contains(s, "VH-HANG") || strings.Contains(s, "VH-SLOW") || strings.Contains(s, "test timed out") || strings.Contains(s, "VH-PANIC"), s
 	case "bigalloc", "splitcap":
 		return strings.Contains(s, "VH-BIGALLOC") || strings.Contains(s, "out of memory") || strings.Contains(s, "VH-PANIC") || strings.Contains(s, "cannot allocate"), s
 	}
